@@ -531,6 +531,20 @@ class Scalar(Parametrized):
     def array(self):
         return [self.data]
 
+    def subs(self, *args):
+        if type(self) is not Scalar:  # MixedScalar, Sqrt take data only
+            return super().subs(*args)
+        return Scalar(rsubs(self.data, *args),
+                      name=self._name, is_mixed=self.is_mixed)
+
+    def lambdify(self, *symbols, **kwargs):
+        if type(self) is not Scalar:
+            return super().lambdify(*symbols, **kwargs)
+        from sympy import lambdify
+        data = lambdify(symbols, self.data, dict(kwargs, modules=Tensor.np))
+        return lambda *xs: Scalar(
+            data(*xs), name=self._name, is_mixed=self.is_mixed)
+
     def grad(self, var, **params):
         if var not in self.free_symbols:
             return Sum([], self.dom, self.cod)
